@@ -195,6 +195,8 @@ VARIANTS = [
     # ---------------- R-DISPATCH rename clause (C01, C18), R-COLLIDE identity-as-absence clause (C20)
     V("extreme quantiles renamed to nanmin / nanmax for the NaN-propagating quantile too", ("C01", "C18"), "R-DISPATCH", "aggregations.py", '    if engine == "flox":\n        try:\n            method = getattr(aggregate_flox, func)', '    if func in ["quantile", "nanquantile"] and kwargs.get("q") in (0, 1):\n        func = "nanmax" if kwargs.pop("q") == 1 else "nanmin"\n\n    if engine == "flox":\n        try:\n            method = getattr(aggregate_flox, func)', must_mention="discipline"),
     V("absent groups detected by comparing the result with the padding identity", ("C20",), "R-COLLIDE", "core.py", '    results = combine(x_chunk, agg, axis, keepdims, is_aggregate=True)\n    return _finalize_results(results, agg, axis, expected_groups, reindex=reindex)', '    results = combine(x_chunk, agg, axis, keepdims, is_aggregate=True)\n    finalized = _finalize_results(results, agg, axis, expected_groups, reindex=reindex)\n    (identity,) = agg.fill_value["intermediate"][:1]\n    finalized[agg.name] = np.where(finalized[agg.name] == identity, fill_value, finalized[agg.name])\n    return finalized', must_mention="identity"),
+    # ---------------- R-PAIRS[collapse] sampled-labels clause (C08)
+    V("labels replaced by their first slice when first and last slice agree", ("C08",), "R-PAIRS[collapse]", "core.py", '    # if indices=[2,2,2], npg assumes groups are (0, 1, 2);', '    if nax == 1 and by.ndim > 1 and np.array_equal(by[0], by[-1]):\n        by = by[0]\n\n    # if indices=[2,2,2], npg assumes groups are (0, 1, 2);', must_mention="slice"),
     # ---------------- R-LOOPSTORE (C09, C19)
     V("cohort map overwrites a repeated block set", ("C09", "C19"), "R-LOOPSTORE", "core.py", '        merged_cohorts[chunk] = sorted(merged_cohorts.get(chunk, []) + cohort)', '        merged_cohorts[chunk] = cohort', must_mention="merged_cohorts"),
     V("twin: cohort map merges under an explicit membership test", ("C09", "C19", "C02"), "", "core.py", '        merged_cohorts[chunk] = sorted(merged_cohorts.get(chunk, []) + cohort)',
